@@ -86,6 +86,9 @@ def build(case):
         s.init, _ = gen.onehot_init(rng, lead, K, N)
     elif init.startswith('blur'):
         s.init, _ = gen.onehot_init(rng, lead, K, N, blur=float(init.split(':')[1]))
+    elif init == 'indep':
+        # class masks estimated independently of each other (or clipped): positive class mass everywhere, columns do not sum to one
+        s.init = rng.uniform(0.05, 1.0, size=(*lead, K, N))
     elif init.startswith('planted'):
         # informed start: the planted labels of the data, blurred - EM converges within a few iterations from here, which is
         # where stopping rules and other shortcuts near convergence act
